@@ -12,9 +12,10 @@ open(os.path.join(wt, "TASK.md"), "w").write("""# Task: write realistic, subtle 
 
 You are helping test a verification effort. Work ONLY inside this git worktree: %(wt)s (a checkout of noxrepo/pox,
 a pure-Python OpenFlow 1.0 controller and software switch; Python is /venv/bin/python; no network).
-Do not read or touch /verif or /repo or any other /tmp/brk-* directory.
+Do not read or touch /verif or /repo or any other /tmp/brk-* directory. NEVER use `git stash` (the stash is shared by all
+worktrees of the repository and other agents work in sibling worktrees): use `git diff > file`, `git apply`, `git apply -R`, `git checkout -- .`.
 
-Run the existing unit tests with:  cd %(wt)s && /venv/bin/python -m pytest -q -p no:cacheprovider tests/unit
+Run the existing unit tests with:  cd %(wt)s && /venv/bin/python -m pytest -q -p no:cacheprovider --continue-on-collection-errors -rA tests/unit
 (Some tests fail on the clean tree already; what matters is that exactly the same tests pass before and after your change.
 Record the clean-tree result first.)
 
